@@ -109,12 +109,10 @@ class SerializedFileBufferedCollection(FileBufferedCollection):
                     # multiple collections pointing to the same file, etc).
                     return
                 else:
-                    blob = self._encode(self._data)
-
                     # If the contents have not been changed since the initial read,
                     # we don't need to rewrite it.
                     try:
-                        if self._hash(blob) != cached_data["hash"]:
+                        if self._hash(cached_data["contents"]) != cached_data["hash"]:
                             # Validate that the file hasn't been changed by
                             # something else.
                             if cached_data["metadata"] != self._get_file_metadata():
